@@ -338,6 +338,9 @@ def utils_problems(res, minmax, idxs=None, iter_sets=None):
     if iter_sets is None:
         iter_sets = [None] + [[i] for i in range(G)] + [[G - 1, 0]]
     rev = str(minmax) == 'max'
+    # the utilities are observers: the result they are handed must stay exactly as it was (order included)
+    before = [[(canon_num(a.position), canon_num(a.cost), canon_num(a.fitness)) for a in g.agents]
+              for g in res.evolution]
 
     def ranked(i):
         return sorted((float(a.cost) for a in res.evolution[i].agents), reverse=rev)
@@ -376,6 +379,12 @@ def utils_problems(res, minmax, idxs=None, iter_sets=None):
                     out.append(('best-agent-trend', 'best_agent_* differs from agent_*(idx=0)'))
             except Exception as e:
                 out.append(('utility-raises', f"best_agent_trend: {type(e).__name__}: {e}"))
+    after = [[(canon_num(a.position), canon_num(a.cost), canon_num(a.fitness)) for a in g.agents]
+             for g in res.evolution]
+    if after != before:
+        k = next(i for i, (x, y) in enumerate(zip(before, after)) if x != y)
+        out.append(('utility-alters-the-recorded-history', f"generation {k} of result.evolution changed (content or "
+                    f"order) after the trend utilities were called"))
     seen, uniq = set(), []
     for w, d in out:
         if w not in seen:
